@@ -729,7 +729,14 @@ func Regex(ctx *context.Context, left, right value.Value) (value.Value, error) {
 					fmt.Errorf("failed to compile regular expression from string %s", rv.Value),
 				)
 			}
-			if matches := re.FindStringSubmatch(lv.Value); len(matches) > 0 {
+			matches, err := findStringSubmatch(re, lv.Value)
+			if err != nil {
+				ctx.FastlyError = &value.String{Value: "EREGRECUR"}
+				return value.Null, errors.WithStack(
+					fmt.Errorf("failed to match regular expression %s: %s", rv.Value, err),
+				)
+			}
+			if len(matches) > 0 {
 				// Important: regex matched group variables are reset if matching is succeeded
 				// see: https://fiddle.fastly.dev/fiddle/3e5320ef
 				ctx.RegexMatchedValues = make(map[string]*value.String)
@@ -751,7 +758,14 @@ func Regex(ctx *context.Context, left, right value.Value) (value.Value, error) {
 					fmt.Errorf("failed to compile regular expression from REGEX %s", rv.Value),
 				)
 			}
-			if matches := re.FindStringSubmatch(lv.Value); len(matches) > 0 {
+			matches, err := findStringSubmatch(re, lv.Value)
+			if err != nil {
+				ctx.FastlyError = &value.String{Value: "EREGRECUR"}
+				return value.Null, errors.WithStack(
+					fmt.Errorf("failed to match regular expression %s: %s", rv.Value, err),
+				)
+			}
+			if len(matches) > 0 {
 				ctx.RegexMatchedValues = make(map[string]*value.String)
 				for j, m := range matches {
 					ctx.RegexMatchedValues[fmt.Sprint(j)] = &value.String{Value: m}
@@ -801,6 +815,19 @@ func Regex(ctx *context.Context, left, right value.Value) (value.Value, error) {
 			fmt.Errorf("invalid type comparison %s and %s", left.Type(), right.Type()),
 		)
 	}
+}
+
+// findStringSubmatch runs the match. The PCRE binding panics when the engine gives up
+// (match limit or recursion limit exceeded, e.g. "(a+)+$" on a long run of "a" followed
+// by another character); a request header must not be able to take the process down, so
+// the failure is returned as an error (Fastly: fastly.error = EREGRECUR).
+func findStringSubmatch(re *pcre.Regexp, s string) (matches []string, err error) {
+	defer func() {
+		if r := recover(); r != nil {
+			matches, err = nil, fmt.Errorf("%v", r)
+		}
+	}()
+	return re.FindStringSubmatch(s), nil
 }
 
 // matchesAcl reports whether ip matches the ACL: the most specific entry (longest
